@@ -122,6 +122,7 @@ structure Inv1 (c : Cfg) (s : State) : Prop where
   o2 : ∀ w k, s.own w = some k → (s.pc w).role = .worker → s.owner k = some w
   o3 : ∀ w, s.pc w = .wInit → s.own w = none
   o4 : ∀ w, (s.pc w).role = .worker → s.pc w ≠ .wInit → s.own w ≠ none
+  o5 : ∀ w k, s.own w = some k → w ∈ c.workers
   sc : ∀ t, (s.pc t).inTask = false → s.scope t = 0
 
 /-! ### facts about the helper program counters -/
